@@ -101,6 +101,9 @@ def _run_shard(binary, mode, shard_path, out_path, prog_path, timeout_case, extr
         if last_n is None:
             synthetic.append({'id': '__shard__', 'shard_failed': True, 'rc': rc})
             break
+        if rc == 5:
+            skip = last_n   # -percase: one fresh process per case
+            continue
         if rc == 3:
             pass  # per-case timeout: the worker already wrote a timeout record
         else:
